@@ -49,6 +49,29 @@ CLAIMS = {
             "Repeatability across processes/crates is not yet covered by this check; rustc repr(C) is trusted.",
             "bounded exhaustive enumeration of programs/configurations on the real code (raw-memory oracle)",
             "h_objects/objs"),
+    "C06": ("model_checking",
+            "Every history up to the depth bound over {create node object / group object (4 enabled sets) / leaf object / CBox / CSliceBox, "
+            "plain call, obtain owned child (object, group), obtain borrowed child (ref, mut, group ref), consuming call (plain, returning a "
+            "child), check/as_ref/as_mut/cast/into for every subset of the optional traits (failing casts included), clone, upcast, drop} on a "
+            "pool of objects is re-executed on the real generated code in lock-step with a model of live payload ids; after every step each "
+            "payload's drop count must be 0 while its owner lives and exactly 1 afterwards; teardown checks every id and the allocator "
+            "(layout-checked frees, quarantine, red zones, leaks). Full enumeration plus BFS with canonical-state dedup.",
+            "DESIGN.md §4 C06",
+            "Hand-written structure members (one node trait with five wrapped associated types, one group family); bounded depth/pool. "
+            "By-reference containers and all generated shapes are covered for drop counts by the C01 harness.",
+            "explicit-state exploration of the real code (exhaustive operation histories vs. reference model)",
+            "h_life"),
+    "C07": ("model_checking",
+            "Same history explorer with one shared CArc context: after every step the context's strong count must equal 1 + the number of live "
+            "derived objects (owned children, groups, clones, cast/final forms, results of by-value calls) and return to 1 at teardown, the "
+            "context payload must be dropped then and never earlier. A separate exhaustive section makes the object the last holder and checks, "
+            "by a backtrace taken in the context payload's Drop, that a consuming call does not release it while a generated wrapper frame is "
+            "on the stack. The borrowed-child leak (known finding) is detected by a probe, reported once, and the model is adjusted so that "
+            "every other discrepancy is still a violation.",
+            "DESIGN.md §4 C07, §5.1",
+            "Release point observed through symbol names in std::backtrace (debug info kept in the harness profile).",
+            "explicit-state exploration of the real code (exhaustive operation histories vs. reference model)",
+            "h_life"),
     "C08": ("exploration",
             "Complete matrix: generated group families (n = 1..3 quick / 1..4 thorough optional traits, a family without mandatory trait, "
             "aliased generic instantiations, traits with &mut methods, out-of-order declarations) x all 2^n implementing types x all 2^n-1 "
@@ -193,6 +216,7 @@ def main():
             {"name": "h_objects", "path": "/verif/engine/h_objects", "serves_properties": ["C01", "C02", "C04", "C08", "C13"], "kind_free_text": "generated-program harness: gen/objects_gen.py + gen/groups_gen.py emit shard crates under engine/h_objects/shards (regenerated on every run), h_objbase holds the differential harness"},
             {"name": "sendsync_c09", "path": "/verif/gen/sendsync_c09.py", "serves_properties": ["C09"], "kind_free_text": "probe-crate generator + per-cell rustc runs"},
             {"name": "h_layout", "path": "/verif/engine_layout", "serves_properties": ["C20"], "kind_free_text": "separate cargo workspace (layout_checks / abi_stable); gen/layout_gen.py emits twin modules"},
+            {"name": "h_life", "path": "/verif/engine/h_life", "serves_properties": ["C06", "C07"], "kind_free_text": "lifecycle history explorer over a tree of generated objects sharing one context"},
             {"name": "h_task", "path": "/verif/engine/h_task", "serves_properties": ["C19"], "kind_free_text": "history explorer over wakers crossing a cglue Future/Stream/Sink object"},
             {"name": "h_loom_task", "path": "/verif/engine/h_loom_task", "serves_properties": ["C19"], "kind_free_text": "loom model of the real cglue/src/task/mod.rs over a loom-backed tarc shim (engine/tarc_shim)"},
             {"name": "h_loom_arc", "path": "/verif/engine/h_loom_arc", "serves_properties": ["C10"], "kind_free_text": "loom model of the real cglue/src/arc.rs (hook h33p_cglue_verif swaps std Arc for loom Arc)"},
